@@ -21,7 +21,7 @@ import (
 // ---- C07, three-party part: the hub between two colluding peers -----------------
 
 var c07VFundMuts = []string{
-	"none", "vf:debit-hub-more", "vf:debit-hub-all", "vf:indexmap-swapped", "vf:second-suballoc", "vf:suballoc-amount+1", "vf:initial-sig-dropped",
+	"none", "vf:debit-hub-more", "vf:debit-hub-all", "vf:indexmap-swapped", "vf:indexmap-all-hub", "vf:indexmap-all-peer", "vf:second-suballoc", "vf:suballoc-amount+1", "vf:initial-sig-dropped",
 	"vf:initial-sig-wrong", "vf:touch-other-suballoc", "vf:parent-sig-other-state", "vf:actor-other",
 }
 var c07VSettleMuts = []string{
@@ -251,6 +251,31 @@ func (c *c07v) mutate(cr *vcraft, peer *world.Node, m *client.ChannelUpdateMsg, 
 			for i := range s.Locked {
 				if s.Locked[i].ID == vid {
 					s.Locked[i].IndexMap = append([]channel.Index{}, (*imap)...)
+				}
+			}
+		}
+	case "vf:indexmap-all-hub", "vf:indexmap-all-peer":
+		// an index map that names one parent participant for every virtual
+		// participant, with the debit moved accordingly (totals preserved)
+		tgt := channel.Index(hIdx)
+		if cr.mut == "vf:indexmap-all-peer" {
+			tgt = pIdx
+		}
+		if imap != nil {
+			for i := range *imap {
+				(*imap)[i] = tgt
+			}
+			for i := range s.Locked {
+				if s.Locked[i].ID == vid {
+					s.Locked[i].IndexMap = append([]channel.Index{}, (*imap)...)
+					for a := range s.Balances {
+						tot := s.Locked[i].Bals[a]
+						s.Balances[a][pIdx] = new(big.Int).Set(cr.before.Balances[a][pIdx])
+						s.Balances[a][hIdx] = new(big.Int).Set(cr.before.Balances[a][hIdx])
+						if s.Balances[a][tgt].Cmp(tot) >= 0 {
+							s.Balances[a][tgt].Sub(s.Balances[a][tgt], tot)
+						}
+					}
 				}
 			}
 		}
